@@ -41,7 +41,7 @@ ALGS = {
 }
 CLASSREFS = ["urn:oasis:names:tc:SAML:2.0:ac:classes:InternetProtocolPassword", "urn:oasis:names:tc:SAML:2.0:ac:classes:PasswordProtectedTransport",
              "urn:oasis:names:tc:SAML:2.0:ac:classes:unspecified", "https://refeds.org/profile/mfa"]
-IDENT_CLASSES = ["plain", "xml-special", "lookalike-markup", "multibyte", "padded", "long", "many-values", "mixed", "repeated-values", "typed-lookalikes", "scale", "line-endings"]
+IDENT_CLASSES = ["plain", "xml-special", "lookalike-markup", "multibyte", "padded", "long", "many-values", "mixed", "repeated-values", "typed-lookalikes", "scale", "line-endings", "structured-lookalikes"]
 
 
 def identity_for(cls, rng):
@@ -80,6 +80,11 @@ def identity_for(cls, rng):
         ident["eduPersonEntitlement"] = ["urn:x:%04d:%s" % (i, gen.word(rng, 2, 6)) for i in range(1500)]
         ident["displayName"] = [gen.word(rng, 150000, 200000)]
         return ident
+    if cls == "structured-lookalikes":
+        # values in the shapes the package's own helpers give to structured identifiers (eptid: <idp>!<sp>!<opaque>; scoped; coded NameIDs)
+        return {"eduPersonTargetedID": ["https://idp.example.org/md!https://sp.example.org/md!5620aeb1c9d0", "a!b!c"],
+                "eduPersonPrincipalName": ["ann@example.org", "a!b!c"], "uid": ["1=https%3A//idp.example.org/md,2=persistent,4=abc", "x!y"],
+                "eduPersonScopedAffiliation": ["staff@example.org", "member@!!"]}
     if cls == "typed-lookalikes":
         # text that looks like another type or like nothing: carried as the text it is
         return {"uid": ["0"], "givenName": ["true", "false", "None", "null"], "sn": ["1.0", "1e3", "-0", "007"], "mail": ["2024-01-01T00:00:00Z"],
@@ -315,7 +320,9 @@ def run_case(case, ctx):
         want_attrs = len([k for k, v in ident.items() if v])
         want_vals = sum(len(v) for v in ident.values())
         extra = [c.tag for a in asts for c in a if c.tag != "{%s}Attribute" % SAML] + [c.tag for a in attrs for c in a if c.tag != "{%s}AttributeValue" % SAML] + \
-                [c.tag for v in vals for c in v]
+                [c.tag for a in attrs for v in a if v.tag == "{%s}AttributeValue" % SAML for c in v
+                 # (eduPersonTargetedID is the one attribute whose values are documented to travel as a NameID element inside the value)
+                 if not (c.tag == "{%s}NameID" % SAML and len(v) == 1 and (a.get("FriendlyName") == "eduPersonTargetedID" or a.get("Name", "").endswith("1.3.6.1.4.1.5923.1.1.1.10")))]
         if len(asts) != 1 or len(attrs) != want_attrs or len(vals) != want_vals or extra:
             viol.append({"key": "C08/attribute-content-changed-message-structure",
                          "what": desc + ": %d statements, %d attributes (asked %d), %d values (asked %d), foreign elements %r" % (
